@@ -332,7 +332,9 @@ def evaluate(ctx, group, cases, canary=False):
         o2[2]['stag'] += 1
         terms.append(coq_case(c2, o2))
         ctx.canaries += 2
-    res = ctx.coq_cases(group, REQ, FN, terms, 2, shard=ctx.pick(300, 400), case_ty=CASE_TY)
+    # few large shards: coqc start-up (~1 s) dominates small ones
+    shard = min(2500, max(300, -(-len(terms) // 16)))
+    res = ctx.coq_cases(group, REQ, FN, terms, 2, shard=shard, case_ty=CASE_TY)
     if canary:
         for ag, ho in res[n_real:]:
             if (ag, ho) == (False, False):
